@@ -506,7 +506,7 @@ fn c19(p: &Prog, rec: &mut Rec, tier: u8) {
     let mut region_effect = 0;
     // --- exploration controls
     let mut skip4: Option<(usize, BTreeSet<Vec<u64>>, usize)> = None;
-    for ctrl in 1..=10u8 {
+    for ctrl in [1u8, 2, 3, 4, 5, 6, 7, 8, 9, 10, 12, 13] {
         if ctrl == 5 && p.threads.len() < 2 {
             continue;
         }
@@ -573,6 +573,15 @@ fn c19(p: &Prog, rec: &mut Rec, tier: u8) {
         }
         if ctrl == 4 {
             skip4 = Some((r.iters, r.outcomes.clone(), rep.nonexploring_entries));
+        }
+        if ctrl == 13 && r.iters != 1 {
+            // exploration was never switched on before skip_branch(): the explore() after it must not start it
+            rec.v("ctrl_skip_restarted", "", format!("ctrl 13: expect_explicit_explore with skip_branch() before the first explore() ran {} iterations / {} results; no decision may have an alternative", r.iters, r.outcomes.len()));
+        }
+        if let (12, Some((it4, out4, ne4))) = (ctrl, &skip4) {
+            if r.iters != *it4 || r.outcomes != *out4 || rep.nonexploring_entries != *ne4 {
+                rec.v("ctrl_skip_restarted", "", format!("ctrl 12: stop_exploring(); skip_branch(); explore() ran {} iterations / {} results / {} decisions with exploration off; skip_branch() alone {} / {} / {}", r.iters, r.outcomes.len(), rep.nonexploring_entries, it4, out4.len(), ne4));
+            }
         }
         if let (9 | 10, Some((it4, out4, ne4))) = (ctrl, &skip4) {
             // after skip_branch() a stray explore() (or a stop_exploring()/explore() pair) must not switch exploration back on
